@@ -71,7 +71,11 @@ struct Env {
     void about(const char* what) { snprintf(g_last_about, 256, "%s", what); if (prog) { rewind(prog); fprintf(prog, "%-200s\n", what); fflush(prog); } }
     void init(int argc, char** argv) {
         MPI_Comm_rank(MPI_COMM_WORLD, &rank); MPI_Comm_size(MPI_COMM_WORLD, &np);
-        g_rank = rank; signal(SIGSEGV, crash_handler); signal(SIGABRT, crash_handler); signal(SIGFPE, crash_handler); signal(SIGALRM, crash_handler);
+        g_rank = rank;
+#ifndef __SANITIZE_ADDRESS__
+        signal(SIGSEGV, crash_handler); signal(SIGABRT, crash_handler); signal(SIGFPE, crash_handler);
+#endif
+        signal(SIGALRM, crash_handler);
         const char* s = getenv("VERIF_SEED"); if (s && *s) seed = atoll(s);
         const char* t = getenv("VERIF_TIER"); if (t && !strcmp(t, "thorough")) thorough = true;
         const char* o = getenv("VERIF_ONLY"); if (o && *o) only = atoll(o);
